@@ -106,68 +106,80 @@ def optAllK : List (Option Kind) → Option (List Kind)
   | none :: _ => none
   | some k :: r => (optAllK r).map (k :: ·)
 
-/-- `list.get(i).unwrap_or(list.last().unwrap())` on a list that `split` never leaves empty -/
-def getOrLast (l : List S) (i : Nat) : S := (l[i]?).getD (l.getLast?.getD [])
+/-- `list.last().unwrap()`: a panic when the list is empty -/
+def lastP {α} (l : List α) : Out α :=
+  match l.getLast? with
+  | some x => .ok x
+  | none => .panic "called `Option::unwrap()` on a `None` value"
+
+/-- `list.get(i).unwrap_or(list.last().unwrap())` (the fall-back is evaluated first, as `unwrap_or` does) -/
+def getOrLastP {α} (l : List α) (i : Nat) : Out α :=
+  match lastP l with
+  | .ok d => .ok ((l[i]?).getD d)
+  | .err m => .err m
+  | .panic m => .panic m
+
+/-- `opt.unwrap()` -/
+def unwrapP {α} : Option α → Out α
+  | some x => .ok x
+  | none => .panic "called `Option::unwrap()` on a `None` value"
 
 def cursorOf (parseNat : S → Option Nat) (s : S) : Out Cursor := parseCursor parseNat s
 
-/-- the sub-selector at position `i` of a complex selector -/
+def Out.bind {α β} (o : Out α) (f : α → Out β) : Out β :=
+  match o with
+  | .ok x => f x
+  | .err m => .err m
+  | .panic m => .panic m
+
+/-- the sub-selector at position `i` of a complex selector, with every `unwrap` of the source where it stands -/
 def readSub (parseNat : S → Option Nat) (kinds : List Kind) (res ann dset beg en keys dat : List S) (i : Nat) : Out Sub :=
-  match (kinds[i]?).getD (kinds.getLast?.getD .text) with
+  (getOrLastP kinds i).bind fun kind =>
+  match kind with
   | .text =>
-    let r := getOrLast res i
+    (getOrLastP res i).bind fun r =>
     if r.isEmpty then .err "CsvError" else
-    match beg[i]?, en[i]? with
-    | some b, some e =>
-      match cursorOf parseNat b, cursorOf parseNat e with
-      | .ok b, .ok e => .ok (.text r b e)
-      | .err m, _ => .err m
-      | _, .err m => .err m
-      | .panic m, _ => .panic m
-      | _, .panic m => .panic m
-    | _, _ => .err "CsvError"
-  | .ann =>
-    let a := getOrLast ann i
-    if a.isEmpty then .err "CsvError" else
     match beg[i]? with
+    | none => .err "CsvError"
     | some b =>
-      if b.isEmpty then .ok (.ann a none) else
+      (cursorOf parseNat b).bind fun b =>
       match en[i]? with
-      | some e =>
-        if e.isEmpty then .err "CsvError" else
-        match cursorOf parseNat b, cursorOf parseNat e with
-        | .ok b, .ok e => .ok (.ann a (some (b, e)))
-        | .err m, _ => .err m
-        | _, .err m => .err m
-        | .panic m, _ => .panic m
-        | _, .panic m => .panic m
       | none => .err "CsvError"
-    | none => .ok (.ann a none)
+      | some e => (cursorOf parseNat e).bind fun e => .ok (.text r b e)
+  | .ann =>
+    (getOrLastP ann i).bind fun a =>
+    if a.isEmpty then .err "CsvError" else
+    -- `beginoffsets.get(i).is_some() && !beginoffsets.get(i).unwrap().is_empty()`
+    if (beg[i]?).isSome && !((beg[i]?).getD []).isEmpty then
+      -- `endoffsets.get(i).map(|x| x.is_empty()).unwrap_or(true)`
+      if ((en[i]?).map List.isEmpty).getD true then .err "CsvError" else
+      (unwrapP (beg[i]?)).bind fun b =>
+      (cursorOf parseNat b).bind fun b =>
+      (unwrapP (en[i]?)).bind fun e =>
+      (cursorOf parseNat e).bind fun e => .ok (.ann a (some (b, e)))
+    else .ok (.ann a none)
   | .res =>
-    let r := getOrLast res i
-    if r.isEmpty then .err "CsvError" else .ok (.res r)
+    (getOrLastP res i).bind fun r => if r.isEmpty then .err "CsvError" else .ok (.res r)
   | .set =>
-    let d := getOrLast dset i
-    if d.isEmpty then .err "CsvError" else .ok (.set d)
+    (getOrLastP dset i).bind fun d => if d.isEmpty then .err "CsvError" else .ok (.set d)
   | .key =>
-    let d := getOrLast dset i
-    if d.isEmpty then .err "CsvError" else .ok (.key d (getOrLast keys i))
+    (getOrLastP dset i).bind fun d =>
+    -- `targetkeys.get(i).or(targetkeys.last()).ok_or_else(..)`
+    match (keys[i]?).or keys.getLast? with
+    | none => .err "CsvError"
+    | some k => if d.isEmpty then .err "CsvError" else .ok (.key d k)
   | .data =>
-    let d := getOrLast dset i
-    if d.isEmpty then .err "CsvError" else .ok (.data d (getOrLast dat i))
+    (getOrLastP dset i).bind fun d =>
+    match (dat[i]?).or dat.getLast? with
+    | none => .err "CsvError"
+    | some x => if d.isEmpty then .err "CsvError" else .ok (.data d x)
   | _ => .err "CsvError"
 
 def readSubs (parseNat : S → Option Nat) (kinds : List Kind) (res ann dset beg en keys dat : List S) : Nat → Nat → Out (List Sub)
   | _, 0 => .ok []
   | i, n + 1 =>
-    match readSub parseNat kinds res ann dset beg en keys dat i with
-    | .ok s =>
-      match readSubs parseNat kinds res ann dset beg en keys dat (i + 1) n with
-      | .ok r => .ok (s :: r)
-      | .err m => .err m
-      | .panic m => .panic m
-    | .err m => .err m
-    | .panic m => .panic m
+    (readSub parseNat kinds res ann dset beg en keys dat i).bind fun s =>
+    (readSubs parseNat kinds res ann dset beg en keys dat (i + 1) n).bind fun r => .ok (s :: r)
 
 def hasSemi (s : S) : Bool := s.contains ';'
 
@@ -183,20 +195,10 @@ def readTarget (parseNat : S → Option Nat) (row : Row) : Out Target :=
           hasSemi row.key || hasSemi row.data then .err "CsvError"
       else match k0 with
         | .text =>
-          match cursorOf parseNat row.begin, cursorOf parseNat row.end_ with
-          | .ok b, .ok e => .ok (.simple (.text row.resource b e))
-          | .err m, _ => .err m
-          | _, .err m => .err m
-          | .panic m, _ => .panic m
-          | _, .panic m => .panic m
+          (cursorOf parseNat row.begin).bind fun b => (cursorOf parseNat row.end_).bind fun e => .ok (.simple (.text row.resource b e))
         | .ann =>
           if !row.begin.isEmpty && !row.end_.isEmpty then
-            match cursorOf parseNat row.begin, cursorOf parseNat row.end_ with
-            | .ok b, .ok e => .ok (.simple (.ann row.annotation (some (b, e))))
-            | .err m, _ => .err m
-            | _, .err m => .err m
-            | .panic m, _ => .panic m
-            | _, .panic m => .panic m
+            (cursorOf parseNat row.begin).bind fun b => (cursorOf parseNat row.end_).bind fun e => .ok (.simple (.ann row.annotation (some (b, e))))
           else .ok (.simple (.ann row.annotation none))
         | .res => .ok (.simple (.res row.resource))
         | .set => .ok (.simple (.set row.dataset))
@@ -208,15 +210,15 @@ def readTarget (parseNat : S → Option Nat) (row : Row) : Out Target :=
       let res := splitSemi row.resource
       let dset := splitSemi row.dataset
       let ann := splitSemi row.annotation
-      let keys := splitSemi row.key
-      let dat := splitSemi row.data
+      -- (an empty TargetKey / TargetData cell arrives as a missing value: no list at all)
+      let keys := if row.key.isEmpty then [] else splitSemi row.key
+      let dat := if row.data.isEmpty then [] else splitSemi row.data
       let beg := splitSemi row.begin
       let en := splitSemi row.end_
       let maxlen := [kinds.length, res.length, dset.length, ann.length, beg.length, en.length, keys.length, dat.length].foldl max 0
-      match readSubs parseNat kinds res ann dset beg en keys dat 1 (maxlen - 1) with
-      | .ok subs => .ok (.complex k0 subs)
-      | .err m => .err m
-      | .panic m => .panic m
+      (readSubs parseNat kinds res ann dset beg en keys dat 1 (maxlen - 1)).bind fun subs =>
+      -- `match selectortypes[0] { Composite | Multi | Directional => …, _ => unreachable!() }`
+      if k0.isComplex then .ok (.complex k0 subs) else .panic "internal error: entered unreachable code"
 
 /-! ## the data cells -/
 
@@ -232,6 +234,6 @@ where intercalateSemi : List S → S
 def readData (dataIds setIds : S) : List (S × S) :=
   if dataIds.isEmpty then [] else
     let sets := splitSemi setIds
-    (splitSemi dataIds).zipIdx.map (fun (d, i) => (getOrLast sets i, d))
+    (splitSemi dataIds).zipIdx.map (fun (d, i) => ((sets[i]?).getD (sets.getLast?.getD []), d))
 
 end Stam.Csv
